@@ -47,3 +47,25 @@ PROPS["C12"] = {
                   "pipeline; F9 is listed in KNOWN_FINDINGS.json and matched only when the output equals the F9 variant of the spec",
     "technique": "Lean 4 proof (simulation of the index counter and array insertion against a declarative spec) + differential correspondence",
 }
+
+PROPS["C10"] = {
+    "gen": [],
+    "lean": ["QV.Props.C10"],
+    "streams": ["c10"],
+    "rule": "each case is a generated object tree (depth ≤5, mixes of user ids and anonymous objects, ids and class names "
+            "chosen to look like generated names: label1, Label1, QLabel1, KLabel, widget2, action1 …); `names`: the names "
+            "assigned by the real ObjectTree::build vs the Lean model (exact) and vs the Lean spec predicate validNaming; "
+            "`doc-names`: the full pipeline — names in the real .ui pairwise distinct, ids verbatim, every addaction / "
+            "object-valued property / ui_->name in the real header resolves to a declared object",
+    "trusted_base": ["hand-written model of qtname.rs/objtree.rs naming, tied by the c10 stream",
+                     "refs_resolve is decided by the Rust-side oracle on real outputs only (no theorem)"],
+    "assumptions": ["HashMap/HashSet behave as finite maps/sets"],
+    "level_text": "proof for the naming clauses: names_unique (pairwise distinct, ids verbatim, generated names avoid every id) for "
+                  "every object list with distinct ids; ensure_never_panics (the N+1-tries search always succeeds: pigeonhole + "
+                  "injectivity of the decimal suffix); variable_name_is_qtify; dup_id_diagnosed. The reference-resolution "
+                  "clause is checked on real .ui/header output by an oracle (partial).",
+    "level_note": "trusted: Lean kernel; model tied by exact comparison of names on generated adversarial trees; reference "
+                  "resolution (addaction, buddy, ui_->name) has no theorem — oracle on real outputs only; F5 (cross-prefix "
+                  "collision) was repaired in /repo (fix: 4bdfee3) and its witness is replayed from corpus/C10 on every run",
+    "technique": "Lean 4 proof (freshness invariant of the name generator, pigeonhole for totality) + differential correspondence + output oracle",
+}
